@@ -122,7 +122,14 @@ def CorruptRecordedField():
 
 def main():
   names = sys.argv[1:] or list(MUTATIONS)
+  res_path = os.path.join(HERE, 'build', 'c16_mutations.json')
   out = {'mutations': [], 'corruption': None}
+  if os.path.exists(res_path):      # keep earlier rows of mutations not re-run
+    try:
+      out['mutations'] = [m for m in json.load(open(res_path))['mutations']
+                          if m['mutation'] not in names]
+    except (ValueError, KeyError):
+      pass
   if names != ['corrupt']:
     for n in names:
       r = RunMutation(n)
@@ -131,7 +138,7 @@ def main():
   out['corruption'] = CorruptRecordedField()
   print(json.dumps(out['corruption']), flush=True)
   os.makedirs(os.path.join(HERE, 'build'), exist_ok=True)
-  with open(os.path.join(HERE, 'build', 'c16_mutations.json'), 'w') as f:
+  with open(res_path, 'w') as f:
     json.dump(out, f, indent=1)
 
 
